@@ -408,11 +408,15 @@ def expressionsAsExpression : List Expr → Expr
 
 /-! ### the processor -/
 
-/-- `CallMatch`: `matchesPrefix used prefix` (Rust `matches`); `computeResult kind args mappings`; `reserve_globals` -/
+/-- `CallMatch`: `matchesPrefix used prefix` (Rust `matches`); `computeResult kind args mappings`;
+`reserve_globals`. `hasResult` (does the matcher override `compute_result`) and `watched` (the
+globals the rule is about) only feed the defect-region instrumentation below. -/
 structure Matcher where
   matchesPrefix : (String → Bool) → Expr → Bool
   computeResult : ArgKind → List Expr → List (String × String) → Option Expr := fun _ _ _ => none
   reserve : List String := []
+  hasResult : Bool := false
+  watched : List String := []
 
 structure St where
   scopes : Scopes := []
@@ -421,6 +425,13 @@ structure St where
   counter : Nat := 0
   /-- `has_side_effects` left the modelled fragment somewhere -/
   unmodelled : Bool := false
+  /-- instrumentation only (never read by the rewriting): defect regions met, see `C17/Model.lean` -/
+  flags : List String := []
+
+def St.flag (st : St) (f : String) : St :=
+  if st.flags.contains f then st else { st with flags := st.flags ++ [f] }
+
+def St.flagIf (st : St) (c : Bool) (f : String) : St := if c then st.flag f else st
 
 def reservedName (n : Nat) : String := "__DARKLUA_REMOVE_CALL_RESERVED_" ++ toString n
 
@@ -456,9 +467,90 @@ def processExpression (M : Matcher) (preserve : Bool) : Expr → St → Expr × 
     else (.call f none kind args, st)
   | e, st => (e, st)
 
+/-! ### instrumentation: which known defect regions does the traversal meet?
+
+The flags are the local hypotheses of the `_partial` theorems (`C17/Thm.lean`) evaluated at every
+node the REAL traversal reaches (including nodes produced by earlier rewrites). They never
+influence the tree. -/
+
+/-- a matched call (no method) -/
+def isMatchedCall (M : Matcher) (sc : Scopes) : Expr → Bool
+  | .call f none _ _ => M.matchesPrefix (isUsed sc) f
+  | _ => false
+
+def lastPositional : List Entry → Option Expr
+  | [] => none
+  | [.pos v] => some v
+  | _ :: rest => lastPositional rest
+
+/-- statement hook: the rewrite left a matched call that will not be visited again (`nested-single`),
+or a bare `local _ = …` (`bare-local`) -/
+def stmtFlags (M : Matcher) (s : Stmt) (s' : Stmt) (st : St) : St :=
+  match s with
+  | .callStmt (.call f none _ _) =>
+    if M.matchesPrefix (isUsed st.scopes) f then
+      match s' with
+      | .callStmt c => st.flagIf (isMatchedCall M st.scopes c) "nested-single"
+      | .localAssign _ _ _ => st.flag "bare-local"
+      | _ => st
+    else st
+  | _ => st
+
+/-- expression hook: zero arguments with a `compute_result` (`zero-arg-expr`); the result is itself a
+matched call (`nested-single`); exactly one kept argument without `compute_result` (`single-kept-expr`) -/
+def exprFlags (M : Matcher) (preserve : Bool) (e : Expr) (e' : Expr) (st : St) : St :=
+  match e with
+  | .call f none kind args =>
+    if M.matchesPrefix (isUsed st.scopes) f then
+      if M.hasResult then
+        (st.flagIf args.isEmpty "zero-arg-expr").flagIf (isMatchedCall M st.scopes e') "nested-single"
+      else
+        st.flagIf (preserve && (preserveArgumentsSideEffects kind args).length == 1) "single-kept-expr"
+    else st
+  | _ => st
+
+/-- a matched call without `compute_result` as the last element of a list: it yields one value
+where the removed call yielded none (`multi-position`) -/
+def listFlags (M : Matcher) (last : Option Expr) (st : St) : St :=
+  match last with
+  | some a => st.flagIf (!M.hasResult && isMatchedCall M st.scopes a) "multi-position"
+  | none => st
+
+def nodeFlags (M : Matcher) (e : Expr) (st : St) : St :=
+  match e with
+  | .var "_" => st.flag "underscore"
+  | .call _ _ .tuple args => listFlags M args.getLast? st
+  | .table entries => listFlags M (lastPositional entries) st
+  | _ => st
+
+def lastFlags (M : Matcher) (l : Last) (st : St) : St :=
+  match l with
+  | .ret es => listFlags M es.getLast? st
+  | _ => st
+
+/-- the program assigns one of the globals the rule is about (`global-write`) -/
+def targetFlags (M : Matcher) (e : Expr) (st : St) : St :=
+  match e with
+  | .var n => st.flagIf (M.watched.contains n && !isUsed st.scopes n) "global-write"
+  | .field (.var n) _ => st.flagIf (n == "debug" && M.watched.contains n && !isUsed st.scopes n) "global-write"
+  | _ => st
+
+def stmtNodeFlags (M : Matcher) (s : Stmt) (st : St) : St :=
+  match s with
+  | .function (root :: _) _ _ => st.flagIf (M.watched.contains root && !isUsed st.scopes root) "global-write"
+  | _ => st
+
 def processor (M : Matcher) (preserve : Bool) : Processor St where
-  stmt := processStatement M preserve
-  expr := processExpression M preserve
+  stmt := fun s st =>
+    let r := processStatement M preserve s st
+    (r.1, if preserve then stmtFlags M s r.1 r.2 else r.2)
+  expr := fun e st =>
+    let r := processExpression M preserve e st
+    (r.1, exprFlags M preserve e r.1 r.2)
+  node := fun e st => (e, nodeFlags M e st)
+  last := fun l st => (l, lastFlags M l st)
+  target := fun e st => (e, targetFlags M e st)
+  stmtNode := fun s st => (s, stmtNodeFlags M s st)
   push := fun st => { st with scopes := pushScope st.scopes }
   pop := fun st => { st with scopes := popScope st.scopes }
   insert := fun n st => (n, { st with scopes := insertId n st.scopes })
@@ -472,10 +564,14 @@ def extractReservedGlobals (st : St) : Option Stmt :=
   | [] => none
   | ms => some (.localAssign .loc (ms.map fun p => .mk p.2 none) (ms.map fun p => .var p.1))
 
+/-- the `ScopeVisitor` pass of `flawless_process` -/
+def run (M : Matcher) (preserve : Bool) (b : Block) : Block × St :=
+  Visitor.runScoped (processor M preserve) b {}
+
 /-- `flawless_process` of both rules: one `ScopeVisitor` pass, then the reserved globals are
 declared in front of the chunk. Second component: `has_side_effects` was unmodelled somewhere. -/
 def apply (M : Matcher) (preserve : Bool) (b : Block) : Block × Bool :=
-  let (b1, st) := Visitor.runScoped (processor M preserve) b {}
+  let (b1, st) := run M preserve b
   match extractReservedGlobals st, b1 with
   | some s, .mk stmts last => (.mk (s :: stmts) last, st.unmodelled)
   | none, _ => (b1, st.unmodelled)
